@@ -297,6 +297,30 @@ func runC02(c *Ctx) {
 			}
 		}
 	}
+	// 2b'. every octet value inside the values that printers walk octet by octet (SVCB alpn ids, dohpath, unknown keys;
+	//      character-strings; names): what is accepted must print
+	for b := 0; b < 256; b++ {
+		for _, shape := range [][]byte{{byte(b)}, {'a', byte(b), 'c'}, {byte(b), byte(b)}} {
+			alpn := append([]byte{byte(len(shape))}, shape...)
+			for _, kv := range [][]byte{
+				append([]byte{0, 1, 0, byte(len(alpn))}, alpn...),         // alpn
+				append([]byte{0, 7, 0, byte(len(shape))}, shape...),       // dohpath
+				append([]byte{0xfd, 0xe8, 0, byte(len(shape))}, shape...), // key65000
+				append([]byte{0, 5, 0, byte(len(shape))}, shape...),       // ech
+			} {
+				rd := append([]byte{0, 1, 0}, kv...) // priority 1, target root
+				w := assembleRR([][]byte{[]byte("svc")}, dns.TypeSVCB, 1, 60, rd)
+				h := buildMsgWire(1, 0x8000, nil, nil, nil, nil)
+				h[7] = 1
+				c02Msg(c, "printed-octets", append(h, w...), false)
+			}
+			txt := append([]byte{byte(len(shape))}, shape...)
+			w := assembleRR([][]byte{shape}, dns.TypeTXT, 1, 60, txt)
+			h := buildMsgWire(1, 0x8000, nil, nil, nil, nil)
+			h[7] = 1
+			c02Msg(c, "printed-octets", append(h, w...), false)
+		}
+	}
 	// 2c. type-length-value sub-structures: every EDNS0 option code and SVCB key with every small length,
 	//     APL items with every address length; RDLENGTH and option lengths consistent
 	fill := func(n int) []byte {
